@@ -1,7 +1,7 @@
 # C14 — prioritized files first, in order, ahead of a single landmark
 PROPS["C14"] = dict(
     props_file="Properties/C14.v",
-    harnesses=[dict(cmd="sort", mod="root", model="Model.Sort", quick=240, thorough=8000, shard=60, coq_jobs=8,
+    harnesses=[dict(cmd="sort", mod="root", model="Model.Sort", quick=240, thorough=8000, shard=60, coq_jobs=8, race=200,
                     preamble="Open Scope string_scope.",
                     require=["res.ok", "res.notfound", "res.other", "res.missed", "prio.empty", "prio.abs", "prio.dotslash",
                              "prio.dotdot", "prio.dir", "prio.link", "prio.dup", "prio.missing", "prio.root", "prio.cycle",
@@ -16,16 +16,18 @@ PROPS["C14"] = dict(
         "archive/tar reader/writer round-trip names, typeflags and link names unchanged (exercised every run, not modelled)",
         "cleanEntryName (path.Clean) is modelled on component lists; the model's clean is compared with the implementation's on every raw string of every case",
         "tarFile.index (a Go map keyed by cleaned name) is modelled as a derived view of the stream; picked = cleaned names of the moved entries",
-        "the compressed-stream / TOC-offset clause is checked on real Build output by the oracle only (gzip, chunking and combine are not modelled)",
+        "the compressed-stream / TOC-offset clause is a theorem over C03's writer/builder model (Model/EsgzWriter.v, tied to estargz.Writer/Build by C03's correspondence check) composed with the sort model, assuming every compressed member is non-empty; it is also checked on real Build output by the oracle",
     ],
     level_text="Coq theorems for every tar, every prioritized list and both not-found modes over the sortEntries model (import, moveRec with parents / hardlink "
                "targets / recursion-path guard, dump): layout G ++ [landmark] ++ R with R the untouched rest in original order, permutation of the imported entries, "
                "every group entry preceded by its existing ancestors and hardlink target, groups in the order given each ending with its listed path, exactly one "
-               "landmark of the right kind, missing paths abort or are reported (exactly those when no hardlink dangles), recursion always terminates. "
+               "landmark of the right kind, missing paths abort or are reported (exactly those when no hardlink dangles), recursion always terminates; "
+               "C14_landmark_separates_offsets: for every chunk size / min-chunk-size / worker count / compressed sizes the TOC offsets of the group are < the landmark's, "
+               "the rest's are >=, the landmark's innerOffset is 0 (over C03's writer/builder model). "
                "The model is run against estargz.sortEntries on generated cases every run; landmark/offset clause checked on real Build output.",
     level_note="Model (coq/Model/Sort.v) is hand-written, of the code with patches C14-fix-1 (F23) and C14-fix-2 (F8) applied; offsets/streams (appendTar, closeWithCombine) "
-               "are not modelled: that clause is an oracle check on real builds (decompressing blob[0:landmark.Offset) yields exactly the bytes before the landmark payload).",
+               "are modelled by C03's Model/EsgzWriter.v (not by this property's own model); the offsets theorem is proved over it and additionally checked on real builds (decompressing blob[0:landmark.Offset) yields exactly the bytes before the landmark payload).",
     technique="Coq proof by induction on the recursion fuel of moveRec and on the prioritized list; correspondence by vm_compute on observed cases; model-free oracle in Go",
     trusted=["estargz/build.go sortEntries/importTar/moveRec/tarFile are modelled by hand in coq/Model/Sort.v; tie = output entry identities in order, landmark kind, missed list, error class, cleaned spellings",
-             "estargz appendTar / closeWithCombine / gzip framing: not modelled, observed through Build output only"],
+             "estargz appendTar / divideEntries / closeWithCombine: C03's hand-written model coq/Model/EsgzWriter.v (tie = C03's harness: exact TOC offsets); gzip framing assumed (every member non-empty)"],
 )
